@@ -49,7 +49,7 @@ PROPS["C19"] = {
             "without recursive, file, link, missing); exists == stat; open/read lists exactly the entries that match the pattern ('*', '?') with "
             "isDir == stat, dirsOnly == the isDir subset; after every op the sentinel and everything else outside the expected change is "
             "byte-identical. Paths that run through a link to a directory denote a place outside the tree and are skipped for create/unlink "
-            "(counted), as is unlink('link/'). Non-trivial = a recursive unlink over a subtree with >= 1 live outside link and >= 2 levels. "
+            "(counted); unlink('link/') must fail and change nothing (Linux rmdir does not follow it). Non-trivial = a recursive unlink over a subtree with >= 1 live outside link and >= 2 levels. "
             "distinct = distinct case text (64-bit hash).",
     "assumptions": ["paths are NUL-free; '/' and '\\' are both separators, 'c:' is an ordinary component for the lexical functions",
                     "getRelativePath is only checked where a lexical answer exists (both rooted or both relative, no '..' left in the simplified from)",
@@ -57,11 +57,11 @@ PROPS["C19"] = {
                     "File::open(directory, read-only) may succeed or fail (POSIX allows opening a directory); the handle is closed at once and not used",
                     "rename(directory, free name, failIfExists=true) may move the directory or refuse, but may not change anything when it refuses",
                     "a failing Directory::create may leave some of the missing parents behind (mkdir -p semantics)",
-                    "a path whose prefix is a symbolic link to a directory, and 'link/' with a trailing separator, denote the outside directory: not generated for create/unlink",
+                    "a path whose prefix is a symbolic link to a directory denotes the outside directory: skipped for create/unlink; rmdir('link/') fails with ENOTDIR on Linux",
                     "the process runs with permission to modify everything inside its scratch directory; every worker uses <outdir>/scratch only"],
     "parts": [
         opf("paths", ["harness/c19_paths.cpp"], {"cases": 1500000, "maxsize": 12}, {"cases": 15000000, "maxsize": 30, "workers": 16}),
-        opf("files", ["harness/c19_files.cpp"], {"cases": 50000, "maxsize": 30}, {"cases": 500000, "maxsize": 60, "workers": 16}),
-        opf("dirs", ["harness/c19_dirs.cpp"], {"cases": 15000, "maxsize": 20}, {"cases": 150000, "maxsize": 40, "workers": 16}),
+        opf("files", ["harness/c19_files.cpp"], {"cases": 100000, "maxsize": 30}, {"cases": 1000000, "maxsize": 60, "workers": 16}),
+        opf("dirs", ["harness/c19_dirs.cpp"], {"cases": 30000, "maxsize": 20}, {"cases": 300000, "maxsize": 40, "workers": 16}),
     ],
 }
